@@ -320,6 +320,8 @@ def invalidations(d, rng):
     mut("collision-mode", lambda x: x.__setitem__("mode", rng.choice(["on", "", "Off", "norepeat"])))
     mut("default-mapping", lambda x: x["defaults"].__setitem__("mapping", "No Such Mapping"))
     mut("velocity-high", lambda x: x["defaults"].__setitem__("velocity", rng.choice([128, 1000])))
+    mut("velocity-far", lambda x: x["defaults"].__setitem__("velocity", rng.choice([256 + 64, 65536 + 100, 1 << 40])))
+    mut("channel-far", lambda x: x["defaults"].__setitem__("channel", rng.choice([256 + 1, 65536 + 16, (1 << 32) + 2])))
     mut("velocity-negative", lambda x: x["defaults"].__setitem__("velocity", -1))
     mut("channel-zero", lambda x: x["defaults"].__setitem__("channel", 0))
     mut("channel-high", lambda x: x["defaults"].__setitem__("channel", rng.choice([17, 256])))
@@ -338,6 +340,9 @@ def invalidations(d, rng):
     def act_hex(x):
         x["actions"].append((rng.choice(["xZZ", "x", "x10000", "x-1"]), 0, "panic"))
     mut("action-bad-hex", act_hex)
+    # empty / blank key names where an evdev name is expected
+    mut("exit-empty-key", lambda x: x.__setitem__("exit", (x["exit"] or []) + [(rng.choice(["", " "]), 0)]))
+    mut("action-empty-key", lambda x: x["actions"].append((rng.choice(["", " "]), 0, "panic")))
     # key tables
     ks = [(mi, ki) for mi, m in enumerate(d["mappings"]) for ki, k in enumerate(m["keys"])]
     if ks:
@@ -351,6 +356,8 @@ def invalidations(d, rng):
         mut("key-note-name-unknown", key_mut(rng.choice(["H3", "E#1", "c9", "C-3", "G#8", "Cb1", "C 1", "c-0"])))
         # names with a multi-digit octave: none of the 128 names (uint8 wrap-around would map some of them into range)
         mut("key-note-name-long-octave", key_mut(rng.choice(["c20", "c03", "C-00", "a41", "c62", "c-22", "C21", "c128", "d#10"])))
+        mut("key-note-far", key_mut(str(rng.choice([256, 300, 511, 65536 + 60]))))
+        mut("key-offset-far", key_mut("60,%d" % rng.choice([256, 257, 271, 65536])))
         mut("key-offset-high", key_mut("60,16"))
         mut("key-offset-negative", key_mut("60,-1"))
         mut("key-offset-text", key_mut("60,x"))
@@ -358,6 +365,9 @@ def invalidations(d, rng):
         def key_name(x):
             x["mappings"][mi]["keys"][ki]["map"].append(("KEY_NOPE", 0, "60", 60, 0))
         mut("key-unknown-name", key_name)
+        def key_empty(x):
+            x["mappings"][mi]["keys"][ki]["map"].append((rng.choice(["", " "]), 0, "60", 60, 0))
+        mut("key-empty-name", key_empty)
     # analog tables
     an = [(mi, ai) for mi, m in enumerate(d["mappings"]) for ai, a in enumerate(m["analog"])]
     if an:
@@ -388,6 +398,18 @@ def invalidations(d, rng):
         def dz_name(x):
             x["mappings"][mi]["analog"][ai]["deadzones"].append(("ABS_NOPE", 0, 0.1))
         mut("deadzone-unknown-axis", dz_name)
+        mut("analog-empty-axis", an_mut({"type": "pitch_bend"}, spell=""))
+        def dz_empty(x):
+            x["mappings"][mi]["analog"][ai]["deadzones"].append(("", 0, 0.1))
+        mut("deadzone-empty-axis", dz_empty)
+        # far outside the range: values whose low byte is a valid number again (a conversion to byte before the check)
+        far = lambda: rng.choice([256, 300, 375, 512, -256, -200, -137, 1 << 40, 65536 + 5])
+        mut("analog-cc-far", an_mut({"type": "cc", "cc": far()}))
+        mut("analog-ccneg-far", an_mut({"type": "cc", "cc": 1, "cc_negative": far()}))
+        mut("analog-note-far", an_mut({"type": "key", "note": far()}))
+        mut("analog-noteneg-far", an_mut({"type": "key", "note": 1, "note_negative": far()}))
+        mut("analog-offset-far", an_mut({"type": "cc", "cc": 1, "channel_offset": far()}))
+        mut("analog-offsetneg-far", an_mut({"type": "cc", "cc": 1, "cc_negative": 2, "channel_offset_negative": far()}))
     return out
 
 
@@ -414,6 +436,20 @@ def mutate_file(text, rng):
             i = rng.choice(idx)
             k, _, v = lines[i].partition(b"=")
             lines[i] = k + b"= " + rng.choice(RETYPES).encode()
+    elif r < 0.60:
+        # an odd key name: empty quoted key, spaces, quotes, very long, non-ASCII (the error paths quote the key back)
+        idx = [i for i, l in enumerate(lines) if re.match(rb"^\s*[\"A-Za-z0-9_-]+\s*=", l)]
+        odd = rng.choice([b'""', b'""', b'" "', b'"KEY_A "', b"''", b'"\\u0000"', b'"' + b"K" * 300 + b'"', b'"KEY_\xc3\x84"', b'"x"', b'"-"'])
+        if idx and rng.random() < 0.8:
+            i = rng.choice(idx)
+            k, _, v = lines[i].partition(b"=")
+            lines[i] = odd + b" =" + v
+        else:
+            # … or as an element of the exit sequence
+            idx = [i for i, l in enumerate(lines) if l.strip().startswith(b"exit_sequence")]
+            if idx:
+                i = rng.choice(idx)
+                lines[i] = lines[i].replace(b"[", b"[" + odd + b", ", 1)
     elif r < 0.65:
         # dotted key / header variation
         idx = [i for i, l in enumerate(lines) if b"=" in l and not l.strip().startswith(b"#")]
